@@ -1169,6 +1169,56 @@ static void case_ecdsa(unit_t *u, int ci)
 out:
     BN_free(r); BN_free(s);
 }
+/* Signatures with a tiny s, constructed at the digest level: pick k and a small s0, r = (kG).x mod n, and
+ * solve e = s0*k - r*d mod n, so that (r, s0) is a genuine signature of the "digest" e.  Then (r, s0+n) is below
+ * the field prime for these s0 and would pass a range check made against p instead of the group order n;
+ * random signatures never have such an s.  ci = 4 * (s0 index) + variant. */
+static const char *SMV[] = { "small-s-valid", "small-s-plus-n", "small-s-r-plus-n", "small-s-plus-2n" };
+static const char *SMS[] = { "s0=1", "s0=2", "s0=2^16", "s0=2^64", "s0=rand-a", "s0=rand-b", "s0=rand-c" };
+#define NSMALLS 28
+static void case_ecdsa_smalls(unit_t *u, int ci)
+{
+    eck_t *E = unit_eckey(u, 0, u->a, 0); if (!E) return;
+    int si = ci / 4, var = ci % 4, size = E->C->size;
+    /* digest length = curve size; for P-521 (n has 521 bits) 65 octets so that neither side truncates or shifts */
+    int dl = (8 * size > BN_num_bits(E->n)) ? size - 1 : size, ok = 0, sl;
+    BIGNUM *s0 = BN_new(), *k = BN_new(), *r = BN_new(), *e = BN_new(), *t = BN_new(), *x = BN_new(), *lim = BN_new(), *s = BN_new();
+    const BIGNUM *d = EC_KEY_get0_private_key(E->ek);
+    EC_POINT *P = EC_POINT_new(E->g);
+    unsigned char dg[80], sig[500];
+    BN_sub(lim, E->p, E->n);                       /* s0 + n < p  <=>  s0 < p - n */
+    BN_zero(t); BN_set_bit(t, 100); if (BN_cmp(t, lim) < 0) BN_copy(lim, t);
+    switch (si) {
+    case 0: BN_one(s0); break; case 1: BN_set_word(s0, 2); break;
+    case 2: BN_zero(s0); BN_set_bit(s0, 16); break; case 3: BN_zero(s0); BN_set_bit(s0, 64); break;
+    default: BN_rand_range(s0, lim); if (BN_num_bits(s0) < 2) BN_set_word(s0, 3); break;
+    }
+    if (BN_cmp(s0, lim) >= 0) vf_incon("small s0 not below p-n on %s", E->C->name);
+    for (int tries = 0; tries < 200 && !ok; tries++) {
+        BN_rand_range(k, E->n); if (BN_is_zero(k)) continue;
+        if (EC_POINT_mul(E->g, P, k, NULL, NULL, bnctx) != 1 || EC_POINT_get_affine_coordinates(E->g, P, x, NULL, bnctx) != 1) continue;
+        BN_nnmod(r, x, E->n, bnctx); if (BN_is_zero(r)) continue;
+        BN_mod_mul(e, s0, k, E->n, bnctx); BN_mod_mul(t, r, d, E->n, bnctx); BN_mod_sub(e, e, t, E->n, bnctx);
+        if (BN_num_bits(e) <= 8 * dl) ok = 1;
+    }
+    if (!ok) { vf_incon("could not construct a small-s signature on %s", E->C->name); goto out; }
+    BN_bn2binpad(e, dg, dl);
+    BN_copy(s, s0);
+    {   /* construction self-check: (r, s0) must be a real signature of e according to libcrypto */
+        const char *why;
+        if (!ecdsa_math_valid(E, r, s0, dg, dl, &why)) { vf_incon("constructed small-s signature is not valid per libcrypto (%s, %s) %s", E->C->name, SMS[si], g_replay); goto out; }
+    }
+    char pos[48]; snprintf(pos, sizeof pos, "%s", SMS[si]);
+    if (var == 1) BN_add(s, s0, E->n);
+    else if (var == 2) { BN_add(r, r, E->n); snprintf(pos, sizeof pos, "%s,r+n-%s-p", SMS[si], BN_cmp(r, E->p) < 0 ? "below" : "above"); }
+    else if (var == 3) { BN_add(s, s0, E->n); BN_add(s, s, E->n); }
+    if (var == 1 && BN_cmp(s, E->p) >= 0) vf_incon("s0+n not below the field prime on %s", E->C->name);
+    sl = enc_sig(sig, r, s, 0, 0, 0);
+    judge_ecdsa(E, r, s, dg, dl, sig, sl, 0, SMV[var], pos, NULL, (ci + u->round) & 1);
+out:
+    EC_POINT_free(P);
+    BN_free(s0); BN_free(k); BN_free(r); BN_free(e); BN_free(t); BN_free(x); BN_free(lim); BN_free(s);
+}
 /* truncation at every length, then a flipped bit in every byte of r and s */
 static void case_ecdsa_sweep(unit_t *u, int ci)
 {
@@ -1829,6 +1879,7 @@ static void build_units(void)
         for (int round = 0; round < er; round++) {
             for (int h = 0; h < 5; h++) { unit_t *u = add_unit("ecdsa-verify", case_ecdsa, NECV, "ecdsa/%s/h%d/r%d", CURVES[c].name, HLENS[h], round); u->a = c; u->b = h; u->round = round; }
             unit_t *u = add_unit("ecdsa-verify", case_ecdsa_sweep, 150 + 2 * sz, "ecdsas/%s/r%d", CURVES[c].name, round); u->a = c; u->round = round;
+            u = add_unit("ecdsa-verify", case_ecdsa_smalls, NSMALLS, "ecdsak/%s/r%d", CURVES[c].name, round); u->a = c; u->round = round;
         }
         { unit_t *u = add_unit("ecdsa-verify", case_ecdsa, NECV, "ecdsa/%s/h32/tk", CURVES[c].name); u->a = c; u->b = 2; u->c = 1; u->round = 9999;
           u = add_unit("ecdsa-sign", case_ecsign, 16, "ecsign/%s/tk", CURVES[c].name); u->a = c; u->c = 1; u->round = 9999; }
